@@ -386,7 +386,7 @@ struct RunOut {
 }
 
 /// Ticks with a yield after each that foreign threads get to return.
-const STUCK_TICKS: u64 = if cfg!(miri) { 20_000 } else { 50_000_000 };
+const STUCK_TICKS: u64 = if cfg!(miri) { 400_000 } else { 5_000_000 };
 
 fn run(p: &Prog) -> RunOut {
     let w = World::new(p.m, false, p.slow);
@@ -530,7 +530,7 @@ fn run(p: &Prog) -> RunOut {
         service += 1;
         if service > STUCK_TICKS {
             let msg = format!(
-                "{} of {} foreign threads have not finished their scripts after {STUCK_TICKS} further ticks (each drains the                  sync queue) with a yield after each: a JoinHandle/Waker call does not return",
+                "{} of {} foreign threads have not finished their scripts after {STUCK_TICKS} further ticks (each drains the sync queue) with a yield after each: a JoinHandle/Waker call does not return",
                 p.threads.len() as u64 - w.threads_done.load(SeqCst),
                 p.threads.len()
             );
@@ -591,7 +591,7 @@ fn run(p: &Prog) -> RunOut {
                 Joined::Ok | Joined::Panicked => bad.push((
                     "C04/join-wake-lost/remote-join-pending-then-completion".into(),
                     format!(
-                        "task {t}: a foreign thread's JoinHandle::poll returned Pending (waker registered); the task then                          completed ({}) but that waker was never woken — the result was found only by polling again unprompted                          once the executor thread had finished its script (Remote::poll was inside the SETTING_WAKER section                          when Task::run finished, which then skips the wake; nobody re-checks)",
+                        "task {t}: a foreign thread's JoinHandle::poll returned Pending (waker registered); the task then completed ({}) but that waker was never woken — the result was found only by polling again unprompted once the executor thread had finished its script (Remote::poll was inside the SETTING_WAKER section when Task::run finished, which then skips the wake; nobody re-checks)",
                         r.name()
                     ),
                 )),
@@ -602,14 +602,20 @@ fn run(p: &Prog) -> RunOut {
         leftovers.push(std::mem::take(&mut o.leftovers));
         handles_back.append(&mut o.handles_back);
     }
-    let overlapped = !raced.is_empty();
     // ---- post-join checks with a live executor
     if let Some(e) = &exe {
         let n = env.recs.borrow().len() as u64;
         let cap = 2 + n / p.m as u64;
         let snapshot: Vec<(usize, &'static str, u64)> = remote_cancelled
             .iter()
-            .map(|(t, what)| (*t, *what, recs[*t].polls.load(SeqCst)))
+            .map(|(t, what)| {
+                let what = match *what {
+                    "cancel" => "remote-cancel",
+                    "hdrop" => "remote-hdrop",
+                    _ => "remote-poll+hdrop",
+                };
+                (*t, what, recs[*t].polls.load(SeqCst))
+            })
             .chain(home_cancelled.iter().map(|t| (*t, "home-hdrop", recs[*t].polls.load(SeqCst))))
             .collect();
         for _ in 0..cap {
@@ -628,9 +634,9 @@ fn run(p: &Prog) -> RunOut {
             }
             if rec.fut_drops.load(SeqCst) == 0 {
                 bad.push((
-                    format!("C04/cancel/future-not-dropped-after-remote-{what}"),
+                    format!("C04/cancel/future-not-dropped/{what}"),
                     format!(
-                        "task {t}: its JoinHandle was released by `{what}` on a foreign thread (returned, thread joined); after \
+                        "task {t}: its JoinHandle was released by `{what}` (the call returned; foreign threads are joined); after \
                          {cap} further ticks (FIFO bound for {n} tasks, max_interval {}) the future is still not dropped: \
                          Task::cancel = schedule() then set_cancelled(); the executor drained and ran the task in between, \
                          so the cancelled task sleeps until something else wakes it or the executor is dropped",
@@ -675,6 +681,12 @@ fn run(p: &Prog) -> RunOut {
         }
         w.exec_dropped.store(1, SeqCst);
     }
+    if p.salt & 1 == 1 {
+        // the home thread lets go of its waker copies first: the foreign
+        // holders then own the last references
+        let ws: Vec<_> = env.wakers.borrow_mut().drain(..).collect();
+        drop(ws);
+    }
     match p.leftovers {
         1 => {
             for l in leftovers {
@@ -708,12 +720,12 @@ fn run(p: &Prog) -> RunOut {
     let recs_all = env.recs.borrow();
     RunOut {
         bad,
+        overlapped: !raced.is_empty(),
         raced,
         ends: recs_all.iter().map(|r| end_state(r)).collect(),
         not_woken_at_teardown: not_woken,
         polls: recs_all.iter().map(|r| r.polls.load(SeqCst)).sum(),
         join_polls,
-        overlapped,
         tasks: recs_all.len(),
         owner_calls: w.owner_calls.load(SeqCst),
         stuck: false,
@@ -721,7 +733,7 @@ fn run(p: &Prog) -> RunOut {
 }
 
 pub(crate) fn evaluate(p: &Prog, rep: &mut Report, leg: &str) -> bool {
-    let replay = || json!({"kind": "xt", "prog": p.to_json(), "reps": 300});
+    let replay = || json!({"kind": "xt", "prog": p.to_json(), "reps": if cfg!(miri) { 200 } else { 3000 }});
     if cfg!(miri) || std::env::var_os("C04_TRACE").is_some() {
         // Miri/sanitizer reports end the process: leave the program behind
         eprintln!("[c04-xt] {}", p.to_json());
@@ -843,7 +855,14 @@ pub(crate) fn gen_prog(rng: &mut Rng, args: &Args) -> Prog {
     }
     let mut home = Vec::new();
     let nh = rng.range(2, if big { 30 } else { 8 });
-    let xdrop_at = if rng.chance(2, 5) { Some(rng.below(nh)) } else { None };
+    // `--xdrop 0`: the executor is only dropped after the foreign threads are
+    // joined; `1`: always while they run; default: 2 in 5 programs
+    let xdrop = match args.get("xdrop") {
+        Some("0") => false,
+        Some("1") => true,
+        _ => rng.chance(2, 5),
+    };
+    let xdrop_at = if xdrop { Some(rng.below(nh)) } else { None };
     for i in 0..nh {
         if Some(i) == xdrop_at {
             home.push(HOp::DropExecutor);
